@@ -1,3 +1,4 @@
+import DT.Sig
 /-! L6/L9 spike: a generic `ast` tree and statement-by-statement Impl of
     `annotate_ancestry`, `find_in_ast`, `RewriteAtQuery`. `partial` is used freely here — the real
     model uses fuel = node count so that the functions are total. -/
@@ -248,10 +249,10 @@ def visitFunctionDefRaw (st : RW) (node : Node) : RW × Node :=
             if st.repl.kind == "AnnAssign" then
               -- (fix: the default slot of the ADDRESSED argument - not of one named like the replacement -, counted
               -- from the right: `pos - (len(args) - len(defaults))`, none when negative)
-              let nd : Int := (args.listField "defaults").length
-              let slot : Option Int := ((argsL.zipIdx).find? (fun (a, _) => a.loc == some st.search)).map
-                (fun (_, pos) => (pos : Int) - ((argsL.length : Int) - nd))
-              ((match slot with | some i => if i < 0 then none else some i | none => none), st.repl)
+              let nd : Nat := (args.listField "defaults").length
+              let slot : Option Int := ((argsL.zipIdx).find? (fun (a, _) => a.loc == some st.search)).bind
+                (fun (_, pos) => (Py.Sig.slotOf argsL.length nd pos).map Int.ofNat)     -- `Sig.pyDefault_set`
+              (slot, st.repl)
             else
               let cands : List Int := (st.repl.nodesOf "targets").flatMap fun t =>
                 (argsL.filter (·.idx.isSome)).filterMap fun a =>
